@@ -25,12 +25,21 @@ type tok struct {
 
 // codecBytes is the literal replay case.
 type codecBytes struct {
-	Msg   string `json:"msg"`
-	Entry string `json:"entry"` // plain | family | direct
-	Hex   string `json:"hex"`
+	Msg    string `json:"msg"`
+	Entry  string `json:"entry"` // plain | family | direct
+	Hex    string `json:"hex"`
+	Logger string `json:"library_logger_level,omitempty"` // "trace": the case ran with the library's diagnostics on
 }
 
+// codecTraceMode is set while the explorer runs with the library logger at trace level (recorded in every case)
+var codecTraceMode bool
+
 func patByte(m *bind.Msg, pat, i int) byte {
+	if pat >= 600 && pat < 1000 {
+		// default content of mandatory element number pat-600: different from its neighbours' (two adjacent one-octet
+		// elements that are swapped must not look the same)
+		return byte(0x11*(pat-600+1) + i)
+	}
 	switch pat {
 	case 1:
 		return 0xFF
@@ -178,7 +187,7 @@ func renderMandatoryMulti(m *bind.Msg, ov map[int]tok) []byte {
 		case i == 1 && m.Family == "gmm":
 			out = append(out, 0x00) // plain security header type
 		default:
-			out = append(out, renderBody(m, s, tok{L: s.Min})...)
+			out = append(out, renderBody(m, s, tok{L: s.Min, Pat: 600 + i})...)
 		}
 	}
 	return out
@@ -404,6 +413,35 @@ func (x *codecExplorer) explore() {
 				}
 			}
 		}
+		// every value 0..255 of every mandatory one-octet slot (the security header type octet of 5GMM messages included;
+		// discriminator and message type are the routing sweep's job), bare and followed by every optional element at
+		// its minimum
+		for i := range m.Slots {
+			si := &m.Slots[i]
+			if si.Optional || si.LenSize != 0 || si.Max != 1 || si.Name == "ExtendedProtocolDiscriminator" || (isMsgIdentity(si.Name) && m.MsgType >= 0) {
+				continue
+			}
+			if !x.mine() {
+				continue
+			}
+			if !x.c.Begin("state", m.Name, map[string]any{"msg": m.Name, "all_values_of": si.Name}) {
+				continue
+			}
+			var allOpt []byte
+			for _, t := range optTokens(m, false) {
+				if t.Slot >= 0 {
+					allOpt = append(allOpt, renderTok(m, t)...)
+				}
+			}
+			for v := 0; v < 256; v++ {
+				full := renderMandatoryMulti(m, map[int]tok{i: {Pat: 1000 + v}})
+				x.states += 2
+				x.trans += 2
+				x.run1(m, full)
+				x.run1(m, append(append([]byte{}, full...), allOpt...))
+			}
+			x.c.Tick()
+		}
 		// pairs of independent features: every value class of a mandatory one-octet slot (all 16 low nibbles x two high
 		// nibbles) together with a large length of every element with a two-octet length field
 		for i := range m.Slots {
@@ -521,6 +559,34 @@ func (x *codecExplorer) explore() {
 			}
 		}
 		x.repetitionFamily(m, min2)
+		// diagnostics on: the mandatory part with every value of every one-octet element, alone and followed by each
+		// minimal optional token, with the library logger at trace level
+		if x.mine() && x.c.Begin("state", m.Name, map[string]any{"msg": m.Name, "logger": "trace"}) {
+			withTraceLogging(func() {
+				codecTraceMode = true
+				defer func() { codecTraceMode = false }()
+				x.states++
+				x.run1(m, base)
+				for i := range m.Slots {
+					si := &m.Slots[i]
+					if si.Optional || si.LenSize != 0 || si.Max != 1 || si.Name == "ExtendedProtocolDiscriminator" || (isMsgIdentity(si.Name) && m.MsgType >= 0) {
+						continue
+					}
+					for v := 0; v < 256; v++ {
+						full := renderMandatoryMulti(m, map[int]tok{i: {Pat: 1000 + v}})
+						x.states++
+						x.trans++
+						x.run1(m, full)
+					}
+				}
+				for _, t := range min2 {
+					x.states++
+					x.trans++
+					x.run1(m, append(append([]byte{}, base...), renderTok(m, t)...))
+				}
+			})
+			x.c.Tick()
+		}
 		for _, t1 := range full1 {
 			if !x.mine() {
 				continue
@@ -700,5 +766,9 @@ func (x *codecExplorer) longInputs() {
 }
 
 func describeCase(m *bind.Msg, entry string, data []byte) codecBytes {
-	return codecBytes{Msg: m.Name, Entry: entry, Hex: fmt.Sprintf("%x", data)}
+	cb := codecBytes{Msg: m.Name, Entry: entry, Hex: fmt.Sprintf("%x", data)}
+	if codecTraceMode {
+		cb.Logger = "trace"
+	}
+	return cb
 }
